@@ -1,7 +1,7 @@
 package main
 
-// A raw ZIP reader and writer written from APPNOTE.TXT (no zip64, no
-// multi-disk: none of the artifacts use them; such archives are refused).
+// A raw ZIP reader and writer written from APPNOTE.TXT (zip64 end records
+// and extra fields are understood; multi-disk archives are refused).
 // The reader reports byte ranges of every structure; the writer re-emits
 // untouched members verbatim and writes new / replaced members as stored
 // entries with correct CRC-32 and sizes, so the container stays consistent
@@ -38,7 +38,9 @@ type zArchive struct {
 	B        []byte
 	Entries  []*zEntry // central directory order
 	CD       Win
-	EOCD     Win // incl. comment
+	EOCD     Win // classic record incl. comment
+	EOCD64   Win // zip64 end of central directory record (Len 0: none)
+	Loc64    Win // zip64 locator
 	After    Win // bytes after the EOCD comment
 	SigBlock Win // APK Signing Block (Len 0: none)
 	Gap      Win // unexplained bytes between the last record and the signing block / CD
@@ -66,16 +68,34 @@ func zipParse(b []byte, zipEnd int) (*zArchive, error) {
 	cnt := int(le.Uint16(b[eocd+10:]))
 	cdSize := int(le.Uint32(b[eocd+12:]))
 	cdOff := int(le.Uint32(b[eocd+16:]))
-	if cnt == 0xffff || cdOff == 0xffffffff || (eocd >= 20 && le.Uint32(b[eocd-20:]) == 0x07064b50) {
-		return nil, errors.New("zip: zip64 not supported by this reader")
+	cdEnd := eocd
+	if eocd >= 20 && le.Uint32(b[eocd-20:]) == 0x07064b50 {
+		z.Loc64 = Win{eocd - 20, 20}
+		ro := int(le.Uint64(b[eocd-20+8:]))
+		if ro < 0 || ro+56 > eocd-20 || le.Uint32(b[ro:]) != 0x06064b50 {
+			return nil, errors.New("zip: bad zip64 locator")
+		}
+		rl := int(le.Uint64(b[ro+4:])) + 12
+		if ro+rl != eocd-20 {
+			return nil, errors.New("zip: zip64 end record does not abut its locator")
+		}
+		z.EOCD64 = Win{ro, rl}
+		cnt64, size64, off64 := int(le.Uint64(b[ro+32:])), int(le.Uint64(b[ro+40:])), int(le.Uint64(b[ro+48:]))
+		if cnt != 0xffff && cnt != cnt64 || cdSize != 0xffffffff && cdSize != size64 || cdOff != 0xffffffff && cdOff != off64 {
+			return nil, errors.New("zip: zip64 end record disagrees with the classic one")
+		}
+		cnt, cdSize, cdOff = cnt64, size64, off64
+		cdEnd = ro
+	} else if cnt == 0xffff || cdOff == 0xffffffff {
+		return nil, errors.New("zip: zip64 markers without locator")
 	}
-	if cdOff+cdSize != eocd {
-		return nil, fmt.Errorf("zip: central directory [%d,+%d) does not end at the EOCD %d", cdOff, cdSize, eocd)
+	if cdOff+cdSize != cdEnd {
+		return nil, fmt.Errorf("zip: central directory [%d,+%d) does not end at the end records %d", cdOff, cdSize, cdEnd)
 	}
 	z.CD = Win{cdOff, cdSize}
 	p := cdOff
 	for i := 0; i < cnt; i++ {
-		if p+46 > eocd || le.Uint32(b[p:]) != 0x02014b50 {
+		if p+46 > cdEnd || le.Uint32(b[p:]) != 0x02014b50 {
 			return nil, fmt.Errorf("zip: bad central header %d", i)
 		}
 		nl, el, cl := int(le.Uint16(b[p+28:])), int(le.Uint16(b[p+30:])), int(le.Uint16(b[p+32:]))
@@ -90,6 +110,44 @@ func zipParse(b []byte, zipEnd int) (*zArchive, error) {
 		e.Name = string(b[p+46 : p+46+nl])
 		csize := int(le.Uint32(b[p+20:]))
 		lo := int(le.Uint32(b[p+42:]))
+		if e.USize == 0xffffffff || csize == 0xffffffff || lo == 0xffffffff {
+			// zip64 extended information extra field (header id 1)
+			x := e.ExtraCD.of(b)
+			ok := false
+			for len(x) >= 4 {
+				id, l := le.Uint16(x), int(le.Uint16(x[2:]))
+				if 4+l > len(x) {
+					break
+				}
+				if id == 1 {
+					f := x[4 : 4+l]
+					take := func() int {
+						if len(f) < 8 {
+							ok = false
+							return 0
+						}
+						v := int(le.Uint64(f))
+						f = f[8:]
+						return v
+					}
+					ok = true
+					if e.USize == 0xffffffff {
+						e.USize = take()
+					}
+					if csize == 0xffffffff {
+						csize = take()
+					}
+					if lo == 0xffffffff {
+						lo = take()
+					}
+					break
+				}
+				x = x[4+l:]
+			}
+			if !ok {
+				return nil, fmt.Errorf("zip: %q needs a zip64 extra field", e.Name)
+			}
+		}
 		if lo+30 > cdOff || le.Uint32(b[lo:]) != 0x04034b50 {
 			return nil, fmt.Errorf("zip: bad local header for %q", e.Name)
 		}
@@ -104,7 +162,7 @@ func zipParse(b []byte, zipEnd int) (*zArchive, error) {
 		z.Entries = append(z.Entries, e)
 		p += e.CD.Len
 	}
-	if p != eocd {
+	if p != cdEnd {
 		return nil, errors.New("zip: central directory size mismatch")
 	}
 	sectionEnd := cdOff
@@ -131,9 +189,14 @@ func zipParse(b []byte, zipEnd int) (*zArchive, error) {
 		tail := end - de
 		want := 0
 		if e.Flags&8 != 0 {
-			want = 12
-			if de+4 <= len(b) && le.Uint32(b[de:]) == 0x08074b50 {
+			// 12 / 16 (with signature) bytes, or 20 / 24 with 8-byte sizes
+			switch {
+			case tail == 12 || tail == 16 || tail == 20 || tail == 24:
+				want = tail
+			case de+4 <= len(b) && le.Uint32(b[de:]) == 0x08074b50:
 				want = 16
+			default:
+				want = 12
 			}
 		}
 		if tail < want {
@@ -215,6 +278,8 @@ type zBuildOpts struct {
 	SigBlock        []byte // APK signing block, copied verbatim
 	Comment         []byte
 	After           []byte // appended after the EOCD
+	EOCD64Template  []byte // zip64 end record of the source (nil: write none)
+	EOCDTemplate    []byte // classic end record of the source (which fields carry the zip64 markers)
 }
 
 func zipBuild(src []byte, members []zMember, o zBuildOpts) []byte {
@@ -238,7 +303,29 @@ func zipBuild(src []byte, members []zMember, o zBuildOpts) []byte {
 			out.Write(e.Data.of(src))
 			out.Write(e.Tail.of(src))
 			h := append([]byte{}, e.CD.of(src)...)
-			le.PutUint32(h[42:], uint32(off))
+			if le.Uint32(h[42:]) != 0xffffffff {
+				le.PutUint32(h[42:], uint32(off))
+			} else {
+				// offset lives in the zip64 extra field, after the 8-byte
+				// sizes that are also escaped
+				nl := int(le.Uint16(h[28:]))
+				x := h[46+nl : 46+nl+int(le.Uint16(h[30:]))]
+				for len(x) >= 4 {
+					l := int(le.Uint16(x[2:]))
+					if le.Uint16(x) == 1 {
+						p := 4
+						if le.Uint32(h[24:]) == 0xffffffff {
+							p += 8
+						}
+						if le.Uint32(h[20:]) == 0xffffffff {
+							p += 8
+						}
+						le.PutUint64(x[p:], uint64(off))
+						break
+					}
+					x = x[4+l:]
+				}
+			}
 			recs = append(recs, cdrec{rank, h})
 			continue
 		}
@@ -300,6 +387,34 @@ func zipBuild(src []byte, members []zMember, o zBuildOpts) []byte {
 	le.PutUint32(eocd[12:], uint32(cd.Len()))
 	le.PutUint32(eocd[16:], uint32(cdOff))
 	le.PutUint16(eocd[20:], uint16(len(o.Comment)))
+	if o.EOCD64Template != nil {
+		ro := out.Len()
+		r := append([]byte{}, o.EOCD64Template...)
+		le.PutUint64(r[24:], uint64(len(members)))
+		le.PutUint64(r[32:], uint64(len(members)))
+		le.PutUint64(r[40:], uint64(cd.Len()))
+		le.PutUint64(r[48:], uint64(cdOff))
+		out.Write(r)
+		loc := make([]byte, 20)
+		le.PutUint32(loc[0:], 0x07064b50)
+		le.PutUint64(loc[8:], uint64(ro))
+		le.PutUint32(loc[16:], 1)
+		out.Write(loc)
+		if t := o.EOCDTemplate; len(t) >= 22 {
+			if le.Uint16(t[8:]) == 0xffff {
+				le.PutUint16(eocd[8:], 0xffff)
+			}
+			if le.Uint16(t[10:]) == 0xffff {
+				le.PutUint16(eocd[10:], 0xffff)
+			}
+			if le.Uint32(t[12:]) == 0xffffffff {
+				le.PutUint32(eocd[12:], 0xffffffff)
+			}
+			if le.Uint32(t[16:]) == 0xffffffff {
+				le.PutUint32(eocd[16:], 0xffffffff)
+			}
+		}
+	}
 	out.Write(eocd)
 	out.Write(o.Comment)
 	out.Write(o.After)
@@ -323,6 +438,10 @@ func (z *zArchive) members() []zMember {
 
 func (z *zArchive) opts() zBuildOpts {
 	o := zBuildOpts{SigBlock: z.SigBlock.of(z.B), After: z.After.of(z.B)}
+	if z.EOCD64.Len > 0 {
+		o.EOCD64Template = z.EOCD64.of(z.B)
+		o.EOCDTemplate = z.B[z.EOCD.Off : z.EOCD.Off+22]
+	}
 	cl := int(le.Uint16(z.B[z.EOCD.Off+20:]))
 	o.Comment = z.B[z.EOCD.Off+22 : z.EOCD.Off+22+cl]
 	return o
